@@ -312,6 +312,7 @@ def check(repo: Repo, R) -> None:
     R.check(not over, "C08.3-failed-visit-recorded-and-reraised", f"{F_BASE}::ElabPass::visit-not-overridden", base.site,
             f"{npass} pass classes; none overrides the base visit (where pending / done / failed are kept)" if not over else f"{over} replace(s) the base visit: what happens in it is outside the pending / done / failed bookkeeping",
             why="a pass fails outside the bookkeeping: the module is not recorded as failed, earlier passes have it cached as done, and the next call skips every check")
+    R.run(bookkeeping_under_the_same_gate, repo, R, visits)
     R.run(nothing_fails_after_done, repo, R, visits)
     R.run(failure_record_kept, repo, R, visits)
     R.run(no_shared_pass_state, repo, R)
@@ -453,3 +454,40 @@ def no_shared_pass_state(repo: Repo, R) -> None:
             f"{n} pass classes: the only class-level container is the done/pending/failed cache; the hierarchy stack is created per pass object in __init__: {fresh}" if not bad else
             f"`{bad[0][0].name}.{bad[0][2]}` is a container on the class: every pass object of every call shares it",
             why="a failing visit never pops its stack entries; with a shared stack they stay for the life of the process and every later error message names modules of the earlier, unrelated design")
+
+
+
+def bookkeeping_under_the_same_gate(repo: Repo, R, visits) -> None:
+    """Where entering the pending set is conditional (only cached generator calls are tracked — tracking hashes the call,
+    and an un-cached call may carry un-hashable parameters), every other operation that hashes the same subject —
+    release, membership test, cache lookup and store — runs under that same condition, the failure handler included."""
+    rule = "C08.1-pending-released-on-every-exit"
+    from . import shared as _sh
+
+    for v in visits:
+        fi = v.fi
+        for s_, adds in v.pending_sets.items():
+            gate = [(ast.unparse(t), pol) for t, pol in _sh.path_conditions(fi.node, adds[0]) if not (isinstance(t, ast.Compare) and isinstance(t.ops[0], (ast.In, ast.NotIn)))]
+            if not gate:
+                continue  # unconditional tracking (module visits): nothing to agree with
+            subj = adds[0].args[0]
+            ungated = []
+            n_ops = 0
+            for n in au.walk_no_nested(fi.node):
+                hit = None
+                if isinstance(n, ast.Call) and isinstance(n.func, ast.Attribute) and n.func.attr in ("add", "discard", "remove", "get", "pop", "setdefault") and n.args and pat.same(n.args[0], subj) and any(_norm(n.func.value, v.env).endswith(x) for x in (".pending", ".done")):
+                    hit = n
+                elif isinstance(n, ast.Compare) and len(n.ops) == 1 and isinstance(n.ops[0], (ast.In, ast.NotIn)) and pat.same(n.left, subj) and any(_norm(_container_root(n.comparators[0]), v.env).endswith(x) for x in (".pending", ".done")):
+                    hit = n
+                elif isinstance(n, ast.Subscript) and pat.same(n.slice, subj) and any(_norm(n.value, v.env).endswith(x) for x in (".pending", ".done")):
+                    hit = n
+                if hit is None:
+                    continue
+                n_ops += 1
+                have = {(ast.unparse(t), pol) for t, pol in _sh.path_conditions(fi.node, hit)}
+                if not set(gate) <= have:
+                    ungated.append(hit)
+            R.check(not ungated, rule, key_of(fi, f"{s_}::same-gate"), fi.at(ungated[0]) if ungated else fi.site,
+                    f"{n_ops} operations hash the call; all of them run under the condition of the tracking itself ({' and '.join(('' if p_ else 'not ') + t_ for t_, p_ in gate)})" if not ungated else
+                    f"`{ast.unparse(ungated[0])[:70]}` hashes the call outside `{' and '.join(t_ for t_, _p in gate)}`",
+                    why="an un-cached generator call with un-hashable parameters whose body raises reports `TypeError: unhashable type` from the bookkeeping instead of the original error")
